@@ -278,12 +278,15 @@ func runOnce(d Desc, sc *scen.Scenario) mon.Result {
 	}
 	if r.err == nil {
 		obs["op_succeeded"]++
+		if sc.IsOpen && d.Setting != "writeblock" && !released && d.K < d.S-2 {
+			return viol("c05/partial-success:"+d.Scenario, "Open reported success although the device went silent after byte %d of the %d-byte opening exchange", d.K, d.S)
+		}
 		if r.res != d.Want {
 			return viol("c05/partial-success:"+d.Scenario, "success reported with a result that is not the complete one\n got: %q\nwant: %q", r.res, d.Want)
 		}
 	} else {
 		obs["op_timed_out_or_failed"]++
-		if d.Setting != "writeblock" && !released && s.Conn.Delivered() < d.Base+d.K {
+		if d.Setting != "writeblock" && d.Setting != "conn+yield" && !released && s.Conn.Delivered() < d.Base+d.K {
 			// the operation gave up before the device had gone silent at all: the stall cannot be
 			// the reason, a step simply took longer than the (short) timeout on this machine
 			return mon.Result{Verdict: mon.Inconclusive, Detail: fmt.Sprintf("load: operation failed (%v) with %d bytes delivered, before the stall point %d was reached", r.err, s.Conn.Delivered(), d.Base+d.K)}
